@@ -36,7 +36,7 @@ class Ctx:
         if n >= self.MAXV:
             self.suppressed = getattr(self, "suppressed", 0) + 1
             return
-        d = os.path.join(build.ROOT, "replays"); os.makedirs(d, exist_ok=True)
+        d = os.path.join(build.OUT, "replays"); os.makedirs(d, exist_ok=True)
         path = os.path.join(d, "%s-%d-%d.json" % (self.pid, self.seed, n))
         replay = dict(replay); replay["property"] = self.pid; replay["what"] = what; replay["seed"] = self.seed
         replay["failing_input_found"] = found_input
